@@ -272,6 +272,17 @@ impl<'a> LfnBuffer<'a> {
     /// "AB0123456789😀.txt"
     /// ```
     pub fn push(&mut self, buffer: &[u16; 13]) {
+        if self.overflow {
+            // nothing more can be stored, and `as_str` reports "" anyway
+            return;
+        }
+        // A surrogate carried over from the previous chunk was provisionally
+        // stored as U+FFFD (3 bytes), in case no further chunk arrives. Take
+        // that back: it is decoded again below, together with this chunk.
+        let carried_surrogate = self.unpaired_surrogate.take();
+        if carried_surrogate.is_some() {
+            self.free += '\u{fffd}'.len_utf8();
+        }
         // find the first null, if any
         let null_idx = buffer
             .iter()
@@ -295,7 +306,7 @@ impl<'a> LfnBuffer<'a> {
             buffer
                 .iter()
                 .cloned()
-                .chain(self.unpaired_surrogate.take().iter().cloned()),
+                .chain(carried_surrogate.iter().cloned()),
         ) {
             match ch {
                 Ok(ch) => {
@@ -309,6 +320,9 @@ impl<'a> LfnBuffer<'a> {
                         // so save this for next time
                         trace!("LFN saved {:?}", e.unpaired_surrogate());
                         self.unpaired_surrogate = Some(e.unpaired_surrogate());
+                        // ...but if this turns out to be the start of the
+                        // name, it stays unpaired: keep a replacement for it
+                        char_vec.push('\u{fffd}').expect("Vec was full!?");
                     } else {
                         // it wasn't - can't deal with it these mid-sequence, so
                         // replace it
